@@ -34,7 +34,7 @@ ASSUMPTIONS = ['a centroid is judged only if, on every recorded subset at every 
 def gen(rng, tier, idx):
     wp = world.draw_world_params(rng, cells_per_leaf=[2, rng.choice([3, 5])], blocky=False, degenerate=0.0,
                                  n_unlabelled=rng.choice([0, 2]), odd_names=rng.random() < 0.2,
-                                 shared_names=False)
+                                 shared_names=rng.random() < 0.25)
     wp['n_leaves'] = rng.choice([2, 3, 4, 5, 6, 8])
     wp['n_genes'] = rng.choice([12, 16, 24, 40])
     return {'wp': wp, 'kcfg': common.draw_kernel_cfg(rng),
